@@ -2,7 +2,7 @@
 
 Engine T (input-history tree), exact oracle with tie classes (DESIGN.md section 3).
 
-Every non-zero word over {-2..2} of length 2..L is a record.  For every dt, every ordered
+Every non-zero word over {-2..2} of length 1..L is a record.  For every dt, every ordered
 fraction pair, se in {True, False} and every measure variant (array running sum of squares
 `calc_sig_dur_vals`; `calc_sig_dur` with the default Arias intensity, with the user callable
 `calc_cav`, with a hand-made inclusive staircase) the real code is run and its start / end are
@@ -19,13 +19,29 @@ a Python list of ints (words one level below the bound) - same record, same acce
 
 Relations (tree edges and metamorphic pairs): amplitude scaling by 2, -2, 3; prepending k zeros
 (start and end shift by k*dt); nesting of fraction intervals; bracketed duration against the
-exact exceedance set for seven thresholds (0, a tiny positive one, five around the sample
-magnitudes), its monotonicity in the threshold and the joint scaling of record and threshold - by
+exact exceedance set for seven thresholds (0, a tiny positive one, five on and around the sample
+magnitudes, two of them within 1e-7 of the magnitude 1), its monotonicity in the threshold and the joint scaling of record and threshold - by
 2, -2, 3 and, for every word and both se, by the factors 0.125 and 0.1 that bring the whole record
 below 0.05 g (threshold 0 stays 0: the smallest allowed threshold on data where it selects something
 no fixed positive level selects).  The relations that need extra executions (scaling, zero
 prefix, joint scaling) are run for the words one level below the length bound (case['rel']);
 nesting and threshold monotonicity use the base executions and are checked for every word.
+
+Hidden tolerances and corners of the quantifier: the scaling relation also uses the factors 2**-30 (~1e-9) and
+2**20 (~1e6) - powers of two, so every sum, product and comparison of the scaled record is the scaled exact one
+and the acceptance sets (including the exact ties) are those of the word itself; the fraction pairs
+(1e-7, 0.5), (0.5, 1-1e-7), (1e-7, 1-1e-7) next to the ends of the allowed range 0 < start < end < 1; bracketed
+thresholds 1 -+ 1e-7 next to a sample magnitude.  Containers (words below the length bound): int8 and
+(non-negative words) uint8 arrays for the array variant, an AccSignal holding the int8 record.
+
+Objects with a history (the duration is that of the record the object holds NOW; words below the length
+bound, like the other relations that need extra executions): one AccSignal per (word, dt) first holds another record one sample longer, then another record of the word's own length - on each of them
+the duration functions are called, the public stat generators (generate_cumulative_stats,
+generate_duration_stats, generate_all_motion_stats) are called and every lazy property is read - and is then
+given the word with reset_values(); calc_sig_dur (default Arias and calc_cav) for every fraction pair and calc_brac_dur for every threshold are compared with the same acceptance sets as on a
+fresh object.  A-B-A: after the same calls on a companion record (same length, same first and last sample,
+interior changed) the default-pair result for the word is still the word's.  Default-option calls (no start / end / se / im) follow the explicit ones on the same object and
+array; arguments are left unchanged (the array handed to calc_sig_dur_vals, the series a user measure returned).
 
 Zero prefix: the k*dt shift follows from the crossing definition exactly when the running
 series of the measure is shift-covariant - always for the running sum of squares and the
@@ -56,13 +72,27 @@ NEST = tuple((p, q) for p, (i, j) in enumerate(PAIRS) for q, (i2, j2) in enumera
              if i2 <= i and j2 >= j and p != q)
 POW2 = (False, True, True, True, False, False)       # fraction is a power of two
 DYAD = (False, True, True, True, True, False)        # fraction is exact in binary
-THRESHOLDS = (0.0, 1e-12, 0.5, 1.0, 1.5, 2.0, 2.5)
+# ascending (the monotonicity relation pairs neighbours).  The two thresholds strictly between the sample
+# magnitudes 0 < 1 < 2 are placed next to the magnitude 1 (1 -+ 1e-7, "nearly equal but different") instead of
+# half way (0.5, 1.5 select the same samples)
+THRESHOLDS = (0.0, 1e-12, 0.9999999, 1.0, 1.0000001, 2.0, 2.5)
+# fraction pairs next to the ends of the allowed range (decided comparisons: relative gap 1e-7)
+EDGE_FRACS = (('0.0000001', '0.5'), ('0.5', '0.9999999'), ('0.0000001', '0.9999999'))
+EDGE_MEASURES = ('array', 'arias')
+DEFAULT_PAIR = ('0.05', '0.95')      # documented defaults of start / end
 # joint scaling of record and threshold by factors < 1 (bracketed duration only, every word, both se):
 # 0.125 is exact in binary; 0.1 is not, but fl(c*|x|) == fl(c*th) whenever |x| == th, so exact ties
 # stay exact ties of the scaled pair.  Peak of the scaled records: 0.25 resp. 0.2 m/s2 (< 0.05 g).
 BRAC_SMALL = (0.125, 0.1)
 INT_MEASURES = ('arias', 'cav')   # calc_sig_dur variants that read the record's own dtype
-SCALES = (2.0, -2.0, 3.0)
+# 2**-30 (9.3e-10) and 2**20 (1.05e6): amplitude scaling is exact for powers of two, so the tie classes carry over
+SCALES = (2.0, -2.0, 3.0, 2.0 ** -30, 2.0 ** 20)
+# the two extreme factors are run on the library's own two cumulative series and on one user measure
+EXTREME_MEASURES = ('array', 'arias', 'stair')
+NARROW = (('i8', np.int8, lambda w: True), ('u8', np.uint8, lambda w: min(w) >= 0))
+STAT_GENERATORS = ('generate_cumulative_stats', 'generate_duration_stats', 'generate_all_motion_stats',
+                   'generate_displacement_and_velocity_series')
+LAZY = ('time', 'npts', 'velocity', 'displacement', 'pga', 'pgv', 'pgd', 'arias_intensity', 'cav')
 ZEROS = (1, 2, 3)
 MEASURES = ('array', 'arias', 'cav', 'stair')
 TRAPEZOID = ('arias', 'cav')     # running series built from panels between neighbouring samples
@@ -74,38 +104,110 @@ NOT_COVARIANT = ('zero-prefix shift: trapezoid measure of a record with a[0]!=0 
 LITERAL_ZERO_PREFIX = os.environ.get('MC_C10_LITERAL_PREFIX', '') == '1'
 
 
-def staircase(asig):
-    """A hand-made user measure: inclusive running sum of |a| (piecewise constant steps)."""
-    return np.cumsum(np.abs(np.asarray(asig.values, dtype=float)))
+class _Stair(object):
+    """A hand-made user measure: inclusive running sum of |a| (piecewise constant steps).  Like a caching
+    user function it keeps the series it computed for an object and hands out that very array on every
+    call; run_case() verifies at the end that nobody wrote into it (a query leaves its arguments alone)."""
+
+    def __init__(self):
+        self.store = {}
+
+    def __call__(self, asig):
+        k = id(asig)
+        if k not in self.store:
+            self.store[k] = (asig, np.cumsum(np.abs(np.asarray(asig.values, dtype=float))))   # keeps asig alive
+        return self.store[k][1]
+
+
+staircase = _Stair()
+
+
+def _touch(sig):
+    """Part of an object's history: the public (partly deprecated) methods that store derived data on the
+    object, and a read of every lazy property.  Not under test here; whatever they do or raise, the
+    durations evaluated afterwards must be those of the record the object holds then."""
+    for nm in STAT_GENERATORS:
+        try:
+            getattr(sig, nm)()
+        except Exception:   # noqa
+            pass
+    for nm in LAZY:
+        try:
+            getattr(sig, nm)
+        except Exception:   # noqa
+            pass
+
+
+def _use(sig):
+    for fn in (lambda: im.calc_sig_dur(sig), lambda: im.calc_sig_dur(sig, im=im.calc_cav, se=True),
+               lambda: im.calc_brac_dur(sig, 0.5), lambda: im.calc_brac_dur(sig, 0.0, se=True)):
+        try:
+            fn()
+        except Exception:   # noqa  (the other records of a history are not what is checked)
+            pass
+    _touch(sig)
+
+
+def history_object(r, w, dt):
+    """An AccSignal that held another record one sample longer, then another record of the word's own
+    length (both used as in _use), and now holds the word."""
+    other = [3 * x + 1 for x in reversed(w)]          # differs from w (3x+1 has no integer fixed point pairs)
+    sub = {'w': w, 'dt': dt, 'history': 'other record (n+1), other record (n), reset_values(w)'}
+    ok, sg = r.call('construct', sub, eqsig.AccSignal, np.array(other + [2], dtype=float), dt)
+    if not ok:
+        return None
+    _use(sg)
+    ok, _ = r.call('history.reset_values', sub, sg.reset_values, np.array(other, dtype=float))
+    if not ok:
+        return None
+    _use(sg)
+    ok, _ = r.call('history.reset_values', sub, sg.reset_values, np.array(w, dtype=float))
+    return sg if ok else None
 
 
 def build(tier, seed):
     L = 6 if tier == 'quick' else 8
     L_rel = L - 1
-    cases = [{'w': list(w), 'rel': len(w) <= L_rel} for w in words(SIGMA, 2, L, nonzero=True)]
+    cases = [{'w': list(w), 'rel': len(w) <= L_rel} for w in words(SIGMA, 1, L, nonzero=True)]
     return {
         'cases': cases,
-        'rule': 'all non-zero words over {-2..2} of length 2..%d (one pool case per word) x dt in %s x all %d ordered '
+        'rule': 'all non-zero words over {-2..2} of length 1..%d (one pool case per word) x dt in %s x all %d ordered '
                 'fraction pairs from %s x se in {T,F} x measure in {array sum of squares (float64 and int64 record), '
                 'Arias default, user callable calc_cav, user staircase}; Arias default and calc_cav also on an AccSignal '
                 'holding the int64 record (all words, se=T) and built from a Python list of ints (length <= %d, se=T); '
                 'bracketed duration x thresholds %s x se, and x joint scaling of record and threshold by %s for every '
                 'word and both se; '
                 'relations (scaling %s, %s prepended zeros, joint scaling) for words of length <= %d, nesting and '
-                'threshold monotonicity for all; non-trivial = every enumerated word (none is identically zero)'
+                'threshold monotonicity for all (the scaling factors 2**-30 and 2**20 for the measures %s); '
+                'additionally per (word, dt): fraction pairs %s for the array variant and the Arias default; '
+                'default-option calls after the explicit ones; arguments unchanged; for length <= %d: array variant '
+                'on int8 / uint8 (non-negative words) arrays, AccSignal holding the int8 record, and one AccSignal '
+                'with a history (another record of length n+1, another record of length n, on both the duration '
+                'functions, the stat generators and all lazy properties, then reset_values(word)): Arias default and '
+                'calc_cav x all fraction pairs and calc_brac_dur x all thresholds; '
+                'non-trivial = every enumerated word (none is identically zero)'
                 % (L, list(DTS), len(PAIRS), list(FRACS), L_rel, list(THRESHOLDS), list(BRAC_SMALL), list(SCALES),
-                   list(ZEROS), L_rel),
+                   list(ZEROS), L_rel, list(EXTREME_MEASURES), [list(e) for e in EDGE_FRACS], L_rel),
         'bounds': {'alphabet': SIGMA, 'max_len': L, 'max_len_relations': L_rel, 'dt': DTS, 'fractions': FRACS,
                    'thresholds': THRESHOLDS, 'scales': SCALES, 'prepended_zeros': ZEROS, 'measures': MEASURES,
                    'bracketed_joint_scales_all_words': BRAC_SMALL, 'integer_record_measures': INT_MEASURES,
-                   'integer_record_containers': ['int64 ndarray (all words)', 'list of Python ints (relation words)']},
+                   'integer_record_containers': ['int64 ndarray (all words)', 'list of Python ints (relation words)',
+                                                 'int8 ndarray (relation words)'],
+                   'integer_array_dtypes': ['int64', 'int8', 'uint8 (non-negative words)'],
+                   'edge_fraction_pairs': EDGE_FRACS, 'edge_fraction_measures': EDGE_MEASURES,
+                   'history': 'other record 3*reversed(w)+1 (+ one sample 2), stat generators %s, lazy properties %s'
+                              % (list(STAT_GENERATORS), list(LAZY))},
         'required_classes': ['decided', 'exact-tie', 'rounding-tie', 'exact-tie-lower', 'exact-tie-upper',
                              'precondition-false', 'precondition-false-raises', 'se-true', 'se-false',
                              'start-eq-end', 'start-lt-end', 'user-measure-differs-from-arias',
                              'scaling', 'zero-prefix-shift', 'zero-prefix-definition', 'nesting',
                              'brac-some-exceed', 'brac-none-exceeds', 'brac-exact-tie', 'brac-monotone',
                              'brac-joint-scaling', 'int-input', 'int-record-i64', 'int-record-list',
-                             'brac-tiny-threshold', 'brac-zero-threshold-below-0.05g', 'brac-monotone-scaled'],
+                             'brac-tiny-threshold', 'brac-zero-threshold-below-0.05g', 'brac-monotone-scaled',
+                             'scaling-tiny', 'scaling-huge', 'int-array-i8', 'int-array-u8', 'int-record-i8',
+                             'edge-fraction', 'edge-fraction-decided', 'default-options', 'history-object',
+                             'brac-history-object', 'brac-threshold-next-to-sample', 'purity', 'a-b-a',
+                             'one-sample'],
         'assumptions': [
             'sample values outside {-2..2}, lengths above the bound, dt / fractions / thresholds outside the menus '
             'are not examined',
@@ -115,7 +217,17 @@ def build(tier, seed):
             'power-of-two fraction) and accepts both outcomes otherwise',
             'when the reference finds no sample strictly inside (precondition of the statement false) the call '
             'may raise IndexError and its result is not constrained',
-            'amplitude-scaling invariance is asserted for homogeneous measures (all four used here)',
+            'amplitude-scaling invariance is asserted for homogeneous measures (all four used here); the factors '
+            '2**-30 and 2**20 are powers of two, so the scaled record has exactly the scaled sums and the tie classes '
+            'of the word carry over unchanged',
+            'fraction pairs next to 0 and 1 (1e-7, 1-1e-7): every comparison has a relative gap >= 1e-7 and is '
+            'demanded; an exact decimal coincidence would be accepted either way',
+            'the duration functions describe the record the object holds now: an object that held other records '
+            '(one of them of the same length) and had its stat generators called / lazy properties read gives the '
+            'same result as a fresh one; the generators themselves are not checked (their exceptions are ignored)',
+            'narrow integer records (int8, uint8) are examined for the alphabet values only (|a| <= 2)',
+            'a query leaves its arguments unchanged: the array given to calc_sig_dur_vals, the object, and the '
+            'series returned by a user measure (the staircase measure hands out its own stored array)',
             'zero-prefix shift by k*dt is asserted where the exact running series of the measure is shift-covariant '
             '(always for the running sum of squares and the staircase; for the trapezoid measures Arias / calc_cav '
             'iff the record starts at 0).  For a trapezoid measure of a record with a[0] != 0 the prepended zero '
@@ -175,27 +287,38 @@ def acceptance(cum, measure, dyadic_dt):
     signs = [im_ref.threshold_signs(cum, q) for q in FR_Q]
     out = []
     for (i, j) in PAIRS:
-        inside, tie_lo, tie_hi = im_ref.crossing_sets(signs[i], signs[j])
-        ex_lo = tie_exact(measure, dyadic_dt, i)
-        ex_hi = tie_exact(measure, dyadic_dt, j)
-        amb = ([] if ex_lo else tie_lo) + ([] if ex_hi else tie_hi)
-        a = Acc()
-        a.exact_lo = bool(tie_lo) and ex_lo
-        a.exact_hi = bool(tie_hi) and ex_hi
-        a.amb = bool(amb)
-        if inside:
-            a.mode = 'must'
-            a.starts = frozenset([inside[0]] + [t for t in amb if t < inside[0]])
-            a.ends = frozenset([inside[-1]] + [t for t in amb if t > inside[-1]])
-        elif amb:
-            a.mode = 'may'          # the precondition itself is a rounding-level tie
-            a.starts = frozenset(amb)
-            a.ends = frozenset(amb)
-        else:
-            a.mode = 'none'
-            a.starts = a.ends = frozenset()
-        out.append(a)
+        out.append(_acc_of(signs[i], signs[j], tie_exact(measure, dyadic_dt, i), tie_exact(measure, dyadic_dt, j)))
     return out
+
+
+def acceptance_edge(cum):
+    """Acceptance sets for the fraction pairs next to the ends of (0, 1); a tie there (only possible through
+    decimal coincidences) is never demanded."""
+    return [_acc_of(im_ref.threshold_signs(cum, Fraction(lo)), im_ref.threshold_signs(cum, Fraction(hi)), False, False)
+            for lo, hi in EDGE_FRACS]
+
+
+def _acc_of(sg_lo, sg_hi, ex_lo, ex_hi):
+    """Acceptance sets from the exact sign lists of the lower / upper fraction; ex_*: a tie with that
+    fraction survives floating point (strictness demanded), otherwise both outcomes are accepted."""
+    inside, tie_lo, tie_hi = im_ref.crossing_sets(sg_lo, sg_hi)
+    amb = ([] if ex_lo else tie_lo) + ([] if ex_hi else tie_hi)
+    a = Acc()
+    a.exact_lo = bool(tie_lo) and ex_lo
+    a.exact_hi = bool(tie_hi) and ex_hi
+    a.amb = bool(amb)
+    if inside:
+        a.mode = 'must'
+        a.starts = frozenset([inside[0]] + [t for t in amb if t < inside[0]])
+        a.ends = frozenset([inside[-1]] + [t for t in amb if t > inside[-1]])
+    elif amb:
+        a.mode = 'may'          # the precondition itself is a rounding-level tie
+        a.starts = frozenset(amb)
+        a.ends = frozenset(amb)
+    else:
+        a.mode = 'none'
+        a.starts = a.ends = frozenset()
+    return a
 
 
 def call_impl(measure, arr, sig, dt, s, e, se):
@@ -305,13 +428,19 @@ def run_case(case):
     n = len(w)
     r.nontrivial += 1
     cnt = r.classes
+    if n == 1:
+        cnt['one-sample'] += 1
     a_f = np.array(w, dtype=float)
     a_i = np.array(w, dtype=np.int64)
+    int_arrays = [('i64', a_i)] + [(tag, np.array(w, dtype=dt_)) for tag, dt_, fits in NARROW if with_rel and fits(w)]
+    staircase.store.clear()
     cum = cum_reference(w)
     acc_by = {}
     for m in MEASURES:
         for dy in (True, False):
             acc_by[(m, dy)] = acceptance(cum[m], m, dy)
+    acc_edge = {m: acceptance_edge(cum[m]) for m in EDGE_MEASURES}
+    p_def = PAIRS.index((FRACS.index(DEFAULT_PAIR[0]), FRACS.index(DEFAULT_PAIR[1])))
     # the user measures must be distinguishable from the default one somewhere
     for p in range(len(PAIRS)):
         ar = acc_by[('arias', False)][p]
@@ -327,8 +456,9 @@ def run_case(case):
         tol = TT * dt * max(n - 1, 1)
         # the same record held with an integer dtype: int64 array, list of Python ints
         int_sigs = []
-        for tag, make in (('i64', lambda: a_i.copy()), ('list', lambda: [int(x) for x in w])):
-            if tag == 'list' and not with_rel:
+        for tag, make in (('i64', lambda: a_i.copy()), ('list', lambda: [int(x) for x in w]),
+                          ('i8', lambda: np.array(w, dtype=np.int8))):
+            if tag != 'i64' and not with_rel:
                 continue
             ok, sg = r.call('construct', {'w': w, 'dt': dt, 'container': tag}, eqsig.AccSignal, make(), dt)
             if ok:
@@ -371,13 +501,15 @@ def run_case(case):
                     if d is not None:
                         got_dur[p] = d
                 if m == 'array':
-                    # the same record as an integer array
-                    r.states += 1
-                    subf = lambda: {'w': w, 'dt': dt, 'measure': 'array-i64', 'start': FRACS[i], 'end': FRACS[j],  # noqa
-                                    'se': True}
-                    ok, out = guarded(r, claim_t, subf, mode, cnt, call_impl, m, a_i, None, dt, s, e, True)
-                    if ok and mode != 'none':
-                        check_pair(r, claim_t, subf, out, acc, dt, n)
+                    # the same record as an integer array (int64, int8, uint8 where the values fit)
+                    for tag, a_int in int_arrays:
+                        r.states += 1
+                        cnt['int-array-' + tag] += 1
+                        subf = lambda: {'w': w, 'dt': dt, 'measure': 'array-' + tag, 'start': FRACS[i],  # noqa
+                                        'end': FRACS[j], 'se': True}
+                        ok, out = guarded(r, claim_t, subf, mode, cnt, call_impl, m, a_int, None, dt, s, e, True)
+                        if ok and mode != 'none':
+                            check_pair(r, claim_t, subf, out, acc, dt, n)
                 if m in INT_MEASURES:
                     for tag, sg in int_sigs:
                         r.states += 1
@@ -413,6 +545,46 @@ def run_case(case):
                         r.fail(claim, {'w': w, 'dt': dt, 'measure': m, 'narrow': [FRACS[k] for k in PAIRS[p]],
                                        'wide': [FRACS[k] for k in PAIRS[q]], 'se': False},
                                'wider fraction interval gives a shorter duration', observed={'narrow': dp, 'wide': dq})
+        # ------------------------------------------------------------ fractions next to 0 and 1
+        for m in EDGE_MEASURES:
+            for q, (lo, hi) in enumerate(EDGE_FRACS):
+                acc = acc_edge[m][q]
+                r.states += 1
+                cnt['edge-fraction'] += 1
+                if acc.mode == 'must' and len(acc.starts) == 1 and len(acc.ends) == 1:
+                    cnt['edge-fraction-decided'] += 1
+                subf = lambda: {'w': w, 'dt': dt, 'measure': m, 'start': lo, 'end': hi, 'se': True}  # noqa
+                ok, out = guarded(r, 'sigdur.crossing.' + m, subf, acc.mode, cnt, call_impl, m, a_f, sig, dt,
+                                  float(lo), float(hi), True)
+                if ok and acc.mode != 'none':
+                    check_pair(r, 'sigdur.crossing.' + m, subf, out, acc, dt, n)
+        # ------------------------------------------------------------ default options after explicit ones
+        for m, fns in (('array', (lambda: im.calc_sig_dur_vals(a_f, dt), lambda: im.calc_sig_dur_vals(a_f, dt, se=True))),
+                       ('arias', (lambda: im.calc_sig_dur(sig), lambda: im.calc_sig_dur(sig, se=True)))):
+            acc = acc_by[(m, dy)][p_def]
+            for se, fn in zip((None, True), fns):
+                r.states += 1
+                cnt['default-options'] += 1
+                subf = lambda: {'w': w, 'dt': dt, 'measure': m, 'start': None, 'end': None, 'se': se,  # noqa
+                                'defaults': list(DEFAULT_PAIR)}
+                ok, out = guarded(r, 'sigdur.defaults.' + m, subf, acc.mode, cnt, fn)
+                if ok and acc.mode != 'none':
+                    (check_pair if se else check_dur)(r, 'sigdur.defaults.' + m, subf, out, acc, dt, n)
+        # ------------------------------------------------------------ object with a history
+        sig_h = history_object(r, w, dt) if with_rel else None
+        if sig_h is not None:
+            for m in INT_MEASURES:
+                accs = acc_by[(m, dy)]
+                claim = 'sigdur.history.' + m
+                for p, (i, j) in enumerate(PAIRS):
+                    acc = accs[p]
+                    r.transitions += 1
+                    cnt['history-object'] += 1
+                    subf = lambda: {'w': w, 'dt': dt, 'measure': m, 'start': FRACS[i], 'end': FRACS[j], 'se': True,  # noqa
+                                    'history': 'other record (n+1), other record (n), stat generators, reset_values(w)'}
+                    ok, out = guarded(r, claim, subf, acc.mode, cnt, call_impl, m, None, sig_h, dt, FR_F[i], FR_F[j], True)
+                    if ok and acc.mode != 'none':
+                        check_pair(r, claim, subf, out, acc, dt, n)
         # ------------------------------------------------------------ relations
         scaled = []
         if with_rel:
@@ -422,7 +594,7 @@ def run_case(case):
                 if not ok:
                     continue
                 scaled.append((c, sig_c))
-                for m in MEASURES:
+                for m in (MEASURES if 1e-6 < abs(c) < 1e5 else EXTREME_MEASURES):
                     accs = acc_by[(m, dy)]
                     claim = 'sigdur.scaling.' + m
                     for p, (i, j) in enumerate(PAIRS):
@@ -430,7 +602,7 @@ def run_case(case):
                         if acc.mode == 'none':
                             continue
                         r.transitions += 1
-                        cnt['scaling'] += 1
+                        cnt['scaling' if 1e-6 < abs(c) < 1e5 else 'scaling-tiny' if abs(c) < 1 else 'scaling-huge'] += 1
                         subf = lambda: {'w': w, 'dt': dt, 'measure': m, 'start': FRACS[i], 'end': FRACS[j], 'scale': c}  # noqa
                         ok, out = guarded(r, claim, subf, acc.mode, cnt, call_impl, m, a_c, sig_c, dt, FR_F[i], FR_F[j], True)
                         if ok:
@@ -480,7 +652,27 @@ def run_case(case):
             if 0.0 < th < 1e-6:
                 cnt['brac-tiny-threshold'] += 1
             cnt['brac-some-exceed' if idx else 'brac-none-exceeds'] += 1
-            for c, sg in [(1.0, sig)] + scaled + small:
+            if 0.0 < abs(th - 1.0) < 1e-6:
+                cnt['brac-threshold-next-to-sample'] += 1
+            for c, sg in [(1.0, sig)] + scaled + small + ([('history', sig_h)] if sig_h is not None else []):
+                if c == 'history':
+                    # the object with a history holds the word itself: same exceedance set
+                    r.transitions += 1
+                    cnt['brac-history-object'] += 1
+                    sub = {'w': w, 'dt': dt, 'threshold': th, 'se': True,
+                           'history': 'other record (n+1), other record (n), stat generators, reset_values(w)'}
+                    ok, out = r.call('brac.history', sub, im.calc_brac_dur, sg, th, se=True)
+                    if ok:
+                        if idx:
+                            dec = decode_times(out, dt, n)
+                            r.expect('brac.history', sub, dec is not None and (dec[0], dec[1]) == (idx[0], idx[-1]),
+                                     'start/end are not the first/last samples whose |a| exceeds the threshold',
+                                     observed=out, expected=[idx[0] * dt, idx[-1] * dt])
+                        else:
+                            okn = isinstance(out, (tuple, list)) and len(out) == 2 and out[0] is None and out[1] is None
+                            r.expect('brac.history', sub, okn, 'nothing exceeds the threshold: expected (None, None)',
+                                     observed=out, expected=[None, None])
+                    continue
                 both = c == 1.0 or c in BRAC_SMALL
                 if th == 0.0 and c in BRAC_SMALL and idx:
                     cnt['brac-zero-threshold-below-0.05g'] += 1     # peak of the scaled record <= 0.25 m/s2
@@ -525,6 +717,47 @@ def run_case(case):
                     sub['scale'] = c        # record c*w, thresholds c*t1 <= c*t2
                 r.expect('brac.monotone', sub, d2 <= d1 + tol,
                          'bracketed duration increases with the threshold', observed=[d1, d2])
+        # ------------------------------------------------------------ A-B-A
+        # the same calls on a companion record B (same length, same first and last sample, every interior sample
+        # changed) and then on A again: the answer for A is still A's
+        if with_rel and n >= 3:
+            comp = [w[0]] + [(x + 3) % 5 - 2 for x in w[1:-1]] + [w[-1]]
+            a_b = np.array(comp, dtype=float)
+            ok, sig_b = r.call('construct', {'w': w, 'dt': dt, 'companion': comp}, eqsig.AccSignal, a_b.copy(), dt)
+            for m, arr_b in (('array', a_b), ('arias', None)):
+                acc = acc_by[(m, dy)][p_def]
+                s0, e0 = float(DEFAULT_PAIR[0]), float(DEFAULT_PAIR[1])
+                try:
+                    call_impl(m, arr_b, sig_b, dt, s0, e0, True)
+                except Exception:   # noqa  (B is checked in its own pool case)
+                    pass
+                r.transitions += 1
+                cnt['a-b-a'] += 1
+                subf = lambda: {'w': w, 'dt': dt, 'measure': m, 'start': DEFAULT_PAIR[0], 'end': DEFAULT_PAIR[1],  # noqa
+                                'se': True, 'after_companion': comp}
+                ok, out = guarded(r, 'sigdur.a-b-a.' + m, subf, acc.mode, cnt, call_impl, m, a_f, sig, dt, s0, e0, True)
+                if ok and acc.mode != 'none':
+                    check_pair(r, 'sigdur.a-b-a.' + m, subf, out, acc, dt, n)
+        # ------------------------------------------------------------ arguments are left alone
+        cnt['purity'] += 1
+        r.expect('purity.array-argument', {'w': w, 'dt': dt},
+                 a_f.dtype == np.float64 and a_f.tolist() == [float(x) for x in w]
+                 and all(a.tolist() == w for _, a in int_arrays),
+                 'the array handed to calc_sig_dur_vals was modified', observed=a_f, expected=w)
+        try:
+            held = sig.values.tolist() == [float(x) for x in w] and float(sig.dt) == dt
+        except Exception:   # noqa
+            held = False
+        r.expect('purity.object', {'w': w, 'dt': dt}, held, 'the queries changed the record / dt of the object')
+    for asig, series in staircase.store.values():
+        try:
+            fresh = np.cumsum(np.abs(np.asarray(asig.values, dtype=float)))
+            same = series.shape == fresh.shape and bool(np.all(series == fresh))
+        except Exception:   # noqa
+            same = False
+        r.expect('purity.user-series', {'w': w, 'values': asig.values}, same,
+                 'the series returned by the user measure was modified by calc_sig_dur', observed=series)
+    staircase.store.clear()
     return r
 
 
@@ -534,17 +767,27 @@ def snippet(case, v):
             "sub = %r\n"
             "a = np.array([0] * sub.get('zeros', 0) + sub['w'], float) * sub.get('scale', 1.0)\n"
             "s = eqsig.AccSignal(a, sub['dt'])\n"
+            "if 'history' in sub:   # the object held two other records before (n+1 and n samples)\n"
+            "    other = [3 * x + 1 for x in reversed(sub['w'])]\n"
+            "    s = eqsig.AccSignal(np.array(other + [2], float), sub['dt'])\n"
+            "    for rec in (np.array(other, float), a):\n"
+            "        im.calc_sig_dur(s); im.calc_brac_dur(s, 0.5); s.generate_cumulative_stats(); s.velocity; s.pga\n"
+            "        s.reset_values(rec)\n"
             "stair = lambda q: np.cumsum(np.abs(q.values))\n"
+            "if 'after_companion' in sub:   # the same calls on the companion record first\n"
+            "    b = np.array(sub['after_companion'], float)\n"
+            "    im.calc_sig_dur_vals(b, sub['dt'], se=True); im.calc_sig_dur(eqsig.AccSignal(b, sub['dt']), se=True)\n"
             "ths = sub['thresholds'] if 'thresholds' in sub else [sub['threshold']] if 'threshold' in sub else []\n"
             "for th in ths:\n"
             "    print(th, im.calc_brac_dur(s, abs(sub.get('scale', 1.0)) * th, se=sub.get('se', False)))\n"
             "prs = [(sub['start'], sub['end'])] if 'start' in sub else [sub['narrow'], sub['wide']] if 'wide' in sub else []\n"
             "for f0, f1 in prs:\n"
-            "    f0, f1, se, m = float(f0), float(f1), sub.get('se', True), sub['measure']\n"
-            "    m, _, cont = m.partition('-')\n"
-            "    if cont == 'i64': a = a.astype(np.int64)\n"
+            "    m, _, cont = sub['measure'].partition('-')\n"
+            "    kw = {} if f0 is None else {'start': float(f0), 'end': float(f1)}   # None: documented defaults\n"
+            "    if sub.get('se') is not None or f0 is not None: kw['se'] = sub.get('se', True)\n"
+            "    if cont in ('i64', 'i8', 'u8'): a = a.astype({'i64': np.int64, 'i8': np.int8, 'u8': np.uint8}[cont])\n"
             "    if cont == 'list': a = [int(x) for x in a]\n"
             "    if cont: s = eqsig.AccSignal(a, sub['dt'])\n"
-            "    if m.startswith('array'): print(f0, f1, im.calc_sig_dur_vals(a, sub['dt'], start=f0, end=f1, se=se))\n"
-            "    else: print(f0, f1, im.calc_sig_dur(s, start=f0, end=f1, se=se, im={'arias': None, 'cav': im.calc_cav, 'stair': stair}[m]))\n"
+            "    if m.startswith('array'): print(kw, im.calc_sig_dur_vals(a, sub['dt'], **kw))\n"
+            "    else: print(kw, im.calc_sig_dur(s, im={'arias': None, 'cav': im.calc_cav, 'stair': stair}[m], **kw))\n"
             % (sub,))
